@@ -1,8 +1,10 @@
 // C26 — HTTP messages written by evhttp carry exactly the caller's content.
 //
 // Two worlds, chosen by the first draw:
-//   * server: a real evhttp (props/http_common.hh: AF_UNIX abstract listener, virtual clock) receives ONE simple valid request
-//     written by the harness (method x version x Connection option); the request callback answers in a generated style
+//   * server: a real evhttp (props/http_common.hh: AF_UNIX abstract listener, virtual clock) receives ONE valid request
+//     written by the harness (method x version x Connection option x content framing: none / Content-Length / chunked with
+//     0-3 chunks and an optional trailer x extra request fields whose names replies use too x segmentation on the wire: the
+//     reply may depend on none of the last three); the request callback answers in a generated style
 //     (evhttp_send_reply with a data buffer / with the request's output buffer / without body, evhttp_send_error with or without
 //     an evhttp_set_errorcb formatter, evhttp_send_reply_start + _chunk* + _end inside the callback or spread over later loop
 //     turns, evhttp_send_reply_chunk_with_cb chains) with generated status code, reason phrase (NULL / benign / adversarial),
@@ -249,6 +251,8 @@ const char *STYLE_NAME[] = {"send_reply(databuf)", "send_reply(output_buffer)", 
 struct ServerCase {
   // request written by the harness
   std::string method = "GET"; int ver = 0; bool req_close = false, req_keepalive = false; std::string req_body;
+  int req_framing = 0;                      // RQ_NONE / RQ_CL / RQ_CHUNKED: how the request carried its content
+  std::vector<std::string> req_chunks; bool req_trailer = false; int req_extra = 0; bool req_conn_caps = false; int req_seg = 0;
   // reply
   int style = 0; int code = 200; bool reason_null = false; std::string reason; bool reason_adv = false;
   std::vector<Hdr> hdrs; std::vector<std::string> chunks; std::string body;
@@ -318,6 +322,55 @@ void reply_cb(struct evhttp_request *req, void *arg) {
   }
 }
 
+// ---- the request the reply answers: content framing x extra fields x segmentation (all valid HTTP; the reply must not depend on it)
+enum { RQ_NONE = 0, RQ_CL, RQ_CHUNKED };
+std::string req_content(Src &s, bool nonempty) {
+  switch (s.below(7)) {
+    case 0: return "abc";
+    case 1: return nonempty ? "x" : "";
+    case 2: return "0\r\n\r\n";
+    case 3: return "5\r\nhello\r\n0\r\n\r\n";
+    case 4: return "HTTP/1.1 200 OK\r\nContent-Length: 1\r\n\r\nx";
+    case 5: return std::string(1 + s.below(300), 'q');
+    default: { size_t n = 1 + s.below(16); return s.bytes(n); }
+  }
+}
+void gen_request(Src &s, ServerCase &c) {
+  bool can_body = c.method != "HEAD";     // the only method of this harness the library gives no request content
+  int rq = s.below(8);
+  if (rq == 0) { c.req_framing = c.req_body.empty() ? RQ_NONE : RQ_CL; }                       // the simple request: "abc" with Content-Length for POST / PUT / PATCH
+  else if (rq == 1 || !can_body) { c.req_body.clear(); c.req_framing = RQ_NONE; }                // no content, no framing field
+  else if (rq == 2) { c.req_body = req_content(s, false); c.req_framing = RQ_CL; }               // Content-Length (also 0) on any method
+  else if (rq == 3 || c.ver >= 2) { c.req_body = req_content(s, true); c.req_framing = RQ_CL; }  // (Transfer-Encoding is HTTP/1.1 only: RFC 9112 6.1)
+  else {                                                                                           // chunked: 0-3 chunks, optional trailer section
+    c.req_framing = RQ_CHUNKED; c.req_body.clear();
+    int n = s.below(4); for (int i = 0; i < n; i++) { c.req_chunks.push_back(req_content(s, true)); c.req_body += c.req_chunks.back(); }
+    c.req_trailer = s.flag();
+  }
+  c.req_extra = s.below(8);        // bit 0: Content-Type, bit 1: Date + Server, bit 2: Accept + a name replies use (none may show up in the reply)
+  c.req_conn_caps = s.flag();      // "Close" / "Keep-Alive" instead of the lower-case option
+  c.req_seg = s.below(4);          // 0: one write, 1: header section | content, 2: cut at a drawn offset, 3: header section, every chunk, last-chunk separately
+}
+// the pieces of the request: [0] = request line + header section, then the content (one piece per chunk + the last-chunk / trailer piece)
+std::vector<std::string> request_pieces(const ServerCase &c) {
+  std::vector<std::string> p;
+  std::string h = c.method + " /x HTTP/1." + (c.ver >= 2 ? "0" : "1") + "\r\nHost: a\r\n";
+  if (c.req_extra & 1) h += "Content-Type: text/from-request\r\n";
+  if (c.req_close) h += c.req_conn_caps ? "Connection: Close\r\n" : "Connection: close\r\n";
+  if (c.req_keepalive) h += c.req_conn_caps ? "Connection: Keep-Alive\r\n" : "Connection: keep-alive\r\n";
+  if (c.req_extra & 2) h += "Date: Monday, 01-Jan-01 00:00:00 GMT\r\nServer: from-request\r\n";   // (obsolete RFC 850 form: would not pass for an automatic Date)
+  if (c.req_framing == RQ_CL) h += "Content-Length: " + std::to_string(c.req_body.size()) + "\r\n";
+  if (c.req_framing == RQ_CHUNKED) h += "Transfer-Encoding: chunked\r\n";
+  if (c.req_extra & 4) h += "Accept: */*\r\nX-A: from-request\r\n";
+  h += "\r\n"; p.push_back(h);
+  if (c.req_framing == RQ_CL) p.push_back(c.req_body);
+  if (c.req_framing == RQ_CHUNKED) {
+    for (auto &x : c.req_chunks) { char sz[32]; snprintf(sz, sizeof sz, "%zx\r\n", x.size()); p.push_back(sz + x + "\r\n"); }
+    p.push_back(std::string("0\r\n") + (c.req_trailer ? "X-Trailer: from-request\r\n" : "") + "\r\n");
+  }
+  return p;
+}
+
 void run_server(Src &s) {
   ServerCase c; g_sc = &c;
   static const char *METHODS[] = {"GET", "HEAD", "POST", "GET", "PUT", "DELETE", "OPTIONS", "PATCH"};
@@ -353,6 +406,7 @@ void run_server(Src &s) {
   else if (own == 2) { Hdr h; h.name = "Date"; h.value = "Sun, 06 Nov 1994 08:49:37 GMT"; c.hdrs.push_back(h); }
   else if (own == 3 && c.style != ST_ERROR && !bodiless) { Hdr h; h.name = s.flag() ? "Content-Length" : "content-length"; h.value = std::to_string(c.body.size()); c.hdrs.push_back(h); }
   else if (own == 4 && !c.req_close && c.ver != 3) { Hdr h; h.name = "Connection"; h.value = "close"; c.hdrs.push_back(h); }
+  gen_request(s, c);   // drawn last: an input that ends here decodes to the simple request (most benign draws)
 
   // ---- exclusion by construction of listed findings
   if (bodiless && (c.style == ST_REPLY_BUF || c.style == ST_REPLY_OUTBUF) && !c.body.empty() && avoid(K_BODILESS)) c.body.clear();
@@ -376,12 +430,15 @@ void run_server(Src &s) {
   else if (c.ctype_mode >= 2) evhttp_set_default_content_type(w.http, c.ctype.c_str());
   if (c.errcb_mode) evhttp_set_errorcb(w.http, error_cb, &c);
   w.connect_client();
-  std::string rq = c.method + " /x HTTP/1." + (c.ver >= 2 ? "0" : "1") + "\r\nHost: a\r\n";
-  if (c.req_close) rq += "Connection: close\r\n"; if (c.req_keepalive) rq += "Connection: keep-alive\r\n";
-  if (!c.req_body.empty()) rq += "Content-Length: " + std::to_string(c.req_body.size()) + "\r\n";
-  rq += "\r\n" + c.req_body;
-  TR("server world: request '%s' ctype_mode=%d ctype='%s' errcb=%d", esc(rq).c_str(), c.ctype_mode, esc(c.ctype).c_str(), c.errcb_mode);
-  w.send_segment(rq.data(), rq.size());
+  std::vector<std::string> pieces = request_pieces(c), segs;
+  std::string rq; for (auto &x : pieces) rq += x;
+  if (c.req_seg == 1) { segs.push_back(pieces[0]); segs.push_back(rq.substr(pieces[0].size())); }
+  else if (c.req_seg == 2) { size_t cut = 1 + s.below((uint32_t)rq.size() - 1); segs.push_back(rq.substr(0, cut)); segs.push_back(rq.substr(cut)); }
+  else if (c.req_seg == 3) segs = pieces;
+  else segs.push_back(rq);
+  TR("server world: request '%s' (framing %d, %zu segments) ctype_mode=%d ctype='%s' errcb=%d", esc(rq, 500).c_str(), c.req_framing, segs.size(), c.ctype_mode, esc(c.ctype).c_str(), c.errcb_mode);
+  int nseg = 0;
+  for (auto &x : segs) if (!x.empty()) { if (nseg++) CHECK(c.cb_runs == 0, "harness/request-delivered-early", "request callback ran before the request was complete"); w.send_segment(x.data(), x.size()); }
   CHECK(c.cb_runs == 1, "harness/request-not-delivered", "request callback ran %d times; response so far '%s'", c.cb_runs, esc(w.resp).c_str());
   if (c.style == ST_STREAM_DEFERRED) {
     while (c.next_chunk < c.chunks.size()) { send_one_chunk(&c, false); if (s.flag()) w.pump(); }
@@ -432,7 +489,14 @@ void run_server(Src &s) {
   for (auto &f : m.fields) if (f.folded) verif_class("obs_fold_emitted");
   if (adv_seen) verif_class("adversarial_argument");
   if (lb_seen) verif_class("structural_argument");
-  bool nontrivial = lb_seen || (m.framing == h9112e::FR_CHUNKED && !m.chunks.empty());
+  if (c.req_framing == RQ_CHUNKED) verif_class(c.req_trailer ? "request_chunked_with_trailer" : "request_chunked");
+  if (c.req_framing == RQ_CL) verif_class("request_content_length");
+  if (nseg > 1) verif_class("request_in_segments");
+  // the request arrived chunked and the streamed reply had to go out unchunked (own Content-Length, body-less status)
+  bool framing_crossed = c.req_framing == RQ_CHUNKED && streaming && m.framing != h9112e::FR_CHUNKED;
+  if (framing_crossed) verif_class("request_chunked_streamed_reply_not_chunked");
+  if (c.req_framing == RQ_CHUNKED && m.framing == h9112e::FR_CHUNKED) verif_class("request_chunked_reply_chunked");
+  bool nontrivial = lb_seen || (m.framing == h9112e::FR_CHUNKED && !m.chunks.empty()) || framing_crossed;
   w.close_client(); w.close_world();
   w.check_no_leak("C26/leak", "C26/fd-leak");
   g_sc = nullptr;
